@@ -22,7 +22,14 @@ pub fn read_input_file_and_xsd_files_at_path(current_file: &Path) -> WriterResul
     let xml = std::fs::read_to_string(current_file)?;
     let mut files = Files::new(file_name, xml);
 
-    for entry in current_file.parent().ok_or(WriterError::PathNotFound)?.read_dir()? {
+    // a bare file name has the empty path as its parent; that is the current directory
+    let parent = match current_file.parent() {
+        Some(parent) if parent.as_os_str().is_empty() => Path::new("."),
+        Some(parent) => parent,
+        None => return Err(WriterError::PathNotFound),
+    };
+
+    for entry in parent.read_dir()? {
         let entry = entry?;
         let path = entry.path();
         if path.is_file() && path.extension().unwrap_or_default() == "xsd" && !current_file.eq(&path) {
